@@ -84,10 +84,11 @@ PROPS["C20"] = {
     "level": "model_checking",
     "harnesses": [
         {"name": "c20_body", "params": {"quick": {"statements": 3}, "thorough": {"statements": 4}}},
+        {"name": "c20_server", "params": {"quick": {"first": 2, "second": 2}, "thorough": {"first": 3, "second": 2}}},
     ],
-    "bounds": {"quick": "all HTTP bodies of 3 statements over 14 statement kinds (auth ok/bad, use-db ok/bad, get, set, stale set-safe, remove, increment ok/non-numeric, keys, create-db refused/allowed/duplicate, secure-key get, blank statement) through the real process_commands",
+    "bounds": {"quick": "all HTTP bodies of 3 statements over 14 statement kinds (auth ok/bad, use-db ok/bad, get, set, stale set-safe, remove, increment ok/non-numeric, keys, create-db refused/allowed/duplicate, secure-key get, blank statement) through the real process_commands; server: the real worker loop of start_http_client over a tiny_http shim (request queue), two consecutive requests (2 + 2 statements from 9 non-mutating and 7 general kinds) on one node against the second request alone on an identically prepared node: same reply, subscriptions and connection count released",
                "thorough": "4 statements"},
-    "outside": "WebSocket on_message splitting (ws crate event loop not sliced); user-token sessions",
+    "outside": "WebSocket on_message splitting (ws crate event loop not sliced); concurrent HTTP workers (the first worker serves every queued request); user-token sessions",
     "assumptions": ["environment shims"],
 }
 
